@@ -11,7 +11,7 @@ import subprocess
 import sys
 import time
 
-from render import render_case, case_cost
+from render import render_case, case_cost, Bases
 from props import PROPS
 
 VERIF = os.path.dirname(os.path.dirname(os.path.abspath(__file__)))
@@ -194,24 +194,37 @@ def run_shards(pid, cases, workdir, preamble_extra=""):
     os.makedirs(workdir, exist_ok=True)
     for f in glob.glob(os.path.join(workdir, "cases_*")):
         os.remove(f)
-    rendered = []
-    for cid, j in cases:
-        rendered.append((cid, render_case(j), case_cost(j)))
-    rendered.sort(key=lambda t: -t[2])
-    shards = [[] for _ in range(NSHARDS)]
+    # balance by estimated cost; keep cases in generation order inside a shard so that related byte
+    # strings (prefixes / patches of one signature) land together and share one definition
+    order = sorted(range(len(cases)), key=lambda i: -case_cost(cases[i][1]))
+    shard_of = {}
     loads = [0.0] * NSHARDS
-    for item in rendered:
+    # greedy on blocks of consecutive cases
+    block = max(1, min(32, len(cases) // (NSHARDS * 4)))
+    blocks = [list(range(i, min(i + block, len(cases)))) for i in range(0, len(cases), block)]
+    blocks.sort(key=lambda bl: -sum(case_cost(cases[i][1]) for i in bl))
+    for bl in blocks:
         k = loads.index(min(loads))
-        shards[k].append(item)
-        loads[k] += item[2]
-    shards = [s for s in shards if s]
+        for i in bl:
+            shard_of[i] = k
+        loads[k] += sum(case_cost(cases[i][1]) + 0.02 for i in bl)
+    shards = [[] for _ in range(NSHARDS)]
+    ctxs = [Bases() for _ in range(NSHARDS)]
+    for i, (cid, j) in enumerate(cases):
+        k = shard_of[i]
+        shards[k].append((cid, render_case(j, ctxs[k]), case_cost(j)))
+    keep = [k for k in range(NSHARDS) if shards[k]]
+    ctxs = [ctxs[k] for k in keep]
+    loads = [loads[k] for k in keep]
+    shards = [shards[k] for k in keep]
 
     def write_shard(k, items, show_ids=None):
         path = os.path.join(workdir, "cases_%d%s.v" % (k, "_show" if show_ids else ""))
         with open(path, "w") as fh:
-            fh.write("From HbsLms Require Import Base.Bytes Model.Consts Exec.Runner.\n")
+            fh.write("From HbsLms Require Import Base.Bytes Model.Consts Model.Lmots Exec.Runner.\n")
             fh.write(preamble_extra)
             fh.write("Local Open Scope N_scope.\n")
+            fh.write(ctxs[k].preamble())
             fh.write("Definition cs : list (N * case) := [\n")
             fh.write(";\n".join("(%d, %s)" % (cid, term) for cid, term, _ in items))
             fh.write("\n].\n")
@@ -225,7 +238,7 @@ def run_shards(pid, cases, workdir, preamble_extra=""):
     def run_one(k):
         path = write_shard(k, shards[k])
         t0 = time.time()
-        rc, out = sh("timeout 2400 coqc -noglob -Q %s/theories HbsLms -w none %s" % (COQ, path), cwd=workdir, timeout=2500)
+        rc, out = sh("ulimit -s unlimited 2>/dev/null; timeout 2400 coqc -noglob -Q %s/theories HbsLms -w none %s" % (COQ, path), cwd=workdir, timeout=2500)
         return k, rc, out, time.time() - t0
 
     mism = []
@@ -246,8 +259,10 @@ def run_shards(pid, cases, workdir, preamble_extra=""):
         ids = [int(x) for x in re.findall(r"\d+", m.group(1))]
         if ids:
             mism += ids
-            path = write_shard(k, shards[k], show_ids=ids[:8])
-            rc2, out2 = sh("timeout 2400 coqc -noglob -Q %s/theories HbsLms -w none %s" % (COQ, path), cwd=workdir, timeout=2500)
+            if shown:
+                continue  # the model's view of the first few disagreements is enough for the replay
+            path = write_shard(k, shards[k], show_ids=ids[:6])
+            rc2, out2 = sh("ulimit -s unlimited 2>/dev/null; timeout 2400 coqc -noglob -Q %s/theories HbsLms -w none %s" % (COQ, path), cwd=workdir, timeout=2500)
             shown += out2
     return sorted(mism), shown, errors
 
